@@ -65,6 +65,14 @@ pub fn subjects(thorough: bool) -> Vec<(String, Logical)> {
         v.push((format!("three-tiles/{}", cname(c)), small_logical(c)));
         v.push((format!("runs-60/{}", cname(c)), scale_family(0, 60, c)));
     }
+    // archives above the usual buffer sizes (8 KiB, 64 KiB) with tiny directories: tile data dominates
+    for c in [Compression::None, Compression::GZip] {
+        for size in [12_000usize, 70_000] {
+            let mut l = small_logical(c);
+            l.tiles.insert(9, crate::common::xorshift_bytes(size as u64, size));
+            v.push((format!("big-tile-{size}/{}", cname(c)), l));
+        }
+    }
     if thorough {
         // every partial map of three ids into four contents, all codecs
         for c in COMPS {
